@@ -229,7 +229,7 @@ const (
 		"................................" //   0xe0
 	//   0123456789abcdef0123456789abcdef
 	commentMap = "" +
-		"..........L....................." + // 0x00
+		".........aL..a.................." + // 0x00
 		"aaaaaaaaaaaaaaaaaaaaaaaaaaaaaaaa" + // 0x20
 		"aaaaaaaaaaaaaaaaaaaaaaaaaaaaaaaa" + // 0x40
 		"aaaaaaaaaaaaaaaaaaaaaaaaaaaaaaaa" + // 0x60
